@@ -137,6 +137,7 @@ type retInfo struct {
 	st    *State
 	vals  []Val
 	block *ssa.BasicBlock
+	pos   token.Pos
 }
 
 type Frame struct {
@@ -776,7 +777,7 @@ func (fr *Frame) block(b *ssa.BasicBlock, reach *Term, st *State, li *loopInfo, 
 			for _, r := range ins.Results {
 				vals = append(vals, fr.val(r, st))
 			}
-			fr.rets = append(fr.rets, retInfo{reach, st, vals, fr.vc.curBlock})
+			fr.rets = append(fr.rets, retInfo{reach, st, vals, fr.vc.curBlock, ins.Pos()})
 			return
 		case *ssa.Panic:
 			if fr.fc == nil || !fr.fc.MayPanic {
